@@ -289,6 +289,7 @@ class C11(Prop):
         "AwProofs.C11.builtin_rejects_non_list",
         "AwProofs.C11.total_of_merged",
         "AwProofs.C11.total_of_merged_text",
+        "AwProofs.C11.flood_of_read",
     ]
     TRUSTED = [
         "harness/registry_dump.py generates AwModel/Query/RegistryGen.lean from aw_query.functions on every run",
